@@ -1,7 +1,7 @@
 #!/bin/bash
 # run every mutant against its property's quick check; write mutants/RESULTS.tsv
 cd "$(dirname "$0")/.."
-out=mutants/RESULTS.tsv; : > $out
+final=mutants/RESULTS.tsv; out=$final.new; : > $out   # replaced only when the whole run is through
 for p in mutants/*.patch; do
   b=$(basename $p .patch); id=$(echo $b | cut -d_ -f1 | tr a-z A-Z)
   log=$(./selftest $id $p 2>&1)
@@ -16,3 +16,4 @@ for p in mutants/*.patch; do
   echo -e "$b\t$id\t$res\t$first" >> $out
 done
 echo done >> $out
+mv $out $final
